@@ -87,6 +87,9 @@ Proof.
   - rewrite <- alt_ok_snlog, Ho, alt_ok_snlog. exact A.
 Qed.
 
+Lemma S6_ghost g w : S6 w -> S6 (ghost g w).
+Proof. apply S6_frame; reflexivity. Qed.
+
 Lemma S6_unsub w w' t i a sub : S6 w -> NoDupE (D i a w) -> amem key_eqb (KSub sub) (D i a w) = true ->
   out w' = (t, EUnsubscribed i sub a) :: out w ->
   (forall i' a', D i' a' w' = if (i' =? i) && (a' =? a) then adel key_eqb (KSub sub) (D i a w) else D i' a' w) ->
@@ -218,7 +221,7 @@ Lemma S6_store_expired X st a k w : GP X w -> S6 w -> S6 (store_expired st a k w
 Proof.
   intros Hg Hs. unfold store_expired. rewrite inner_touch.
   destruct (aget key_eqb k (inner a (get_store st w))) as [old|] eqn:Ea.
-  - destruct st as [|i].
+  - apply S6_ghost. destruct st as [|i].
     + apply (S6_frame w); [| |exact Hs].
       * destruct k as [s|sub]; cbn [store_callback]; [|rewrite out_put_store; reflexivity].
         rewrite (sm_snlog _ _ (n_notify_service listener_stopped s a (fun l => n_listener_stopped l s a) _) eq_refl).
@@ -378,7 +381,21 @@ Lemma tail_facts i ttl a k w1 : has_store (SSubs i) w1 = true ->
   /\ exists tid, forall i' a', D i' a' (fst (refresh_tail (SSubs i) ttl a k w1))
        = if (i' =? i) && (a' =? a) then adel key_eqb k (D i a w1) ++ [(k, tid)] else D i' a' w1.
 Proof.
-  intros Hh. unfold refresh_tail. destruct (ttl =? TTL_FOREVER).
+  intros Hh0. unfold refresh_tail. cbv zeta.
+  change (out w1) with (out (ghost (GRefresh (SSubs i) a k ttl) w1)).
+  assert (Hdg : forall i' a', D i' a' w1 = D i' a' (ghost (GRefresh (SSubs i) a k ttl) w1)) by reflexivity.
+  assert (Hh : has_store (SSubs i) (ghost (GRefresh (SSubs i) a k ttl) w1) = true) by exact Hh0.
+  enough (Hen : out (fst (let '(tid, w2) := if ttl =? TTL_FOREVER then (None, ghost (GRefresh (SSubs i) a k ttl) w1)
+                                       else let '(t, w') := call_later (ttl * usec_per_sec) (HExpired (SSubs i) a k) (ghost (GRefresh (SSubs i) a k ttl) w1) in (Some t, w') in
+                          (put_store (SSubs i) (aset N.eqb a (adel key_eqb k (inner a (touch a (get_store (SSubs i) w2))) ++ [(k, tid)]) (touch a (get_store (SSubs i) w2))) w2, true)))
+                 = out (ghost (GRefresh (SSubs i) a k ttl) w1)
+                 /\ exists tid, forall i' a', D i' a' (fst (let '(tid, w2) := if ttl =? TTL_FOREVER then (None, ghost (GRefresh (SSubs i) a k ttl) w1)
+                                       else let '(t, w') := call_later (ttl * usec_per_sec) (HExpired (SSubs i) a k) (ghost (GRefresh (SSubs i) a k ttl) w1) in (Some t, w') in
+                          (put_store (SSubs i) (aset N.eqb a (adel key_eqb k (inner a (touch a (get_store (SSubs i) w2))) ++ [(k, tid)]) (touch a (get_store (SSubs i) w2))) w2, true)))
+                    = if (i' =? i) && (a' =? a) then adel key_eqb k (D i a (ghost (GRefresh (SSubs i) a k ttl) w1)) ++ [(k, tid)] else D i' a' (ghost (GRefresh (SSubs i) a k ttl) w1)).
+  { exact Hen. }
+  revert Hh. generalize (ghost (GRefresh (SSubs i) a k ttl) w1). clear w1 Hh0 Hdg. intros w1 Hh.
+  destruct (ttl =? TTL_FOREVER).
   - cbn [fst]. split; [apply out_put_store|]. exists None. intros i' a'. rewrite D_put_store, Hh. cbn [andb].
     destruct (N.eqb_spec i' i) as [->|Hne]; cbn [andb]; [|reflexivity].
     rewrite inner_aset. destruct (a' =? a); [rewrite inner_touch; reflexivity|rewrite inner_touch; reflexivity].
@@ -393,7 +410,9 @@ Qed.
 
 Lemma tail_sx ttl a k w1 : sx w1 (fst (refresh_tail SFound ttl a k w1)).
 Proof.
-  unfold refresh_tail. destruct (ttl =? TTL_FOREVER); [cbn [fst]; apply sx_put_found|].
+  unfold refresh_tail. cbv zeta. apply (sx_trans _ (ghost (GRefresh SFound a k ttl) w1)); [split; reflexivity|].
+  generalize (ghost (GRefresh SFound a k ttl) w1). clear w1. intros w1.
+  destruct (ttl =? TTL_FOREVER); [cbn [fst]; apply sx_put_found|].
   destruct (call_later (ttl * usec_per_sec) (HExpired SFound a k) w1) as [t w2] eqn:Ec. cbn [fst].
   assert (Hw2 : w2 = snd (call_later (ttl * usec_per_sec) (HExpired SFound a k) w1)) by (rewrite Ec; reflexivity).
   eapply sx_trans; [|apply sx_put_found]. rewrite Hw2. split; reflexivity.
@@ -543,23 +562,10 @@ Proof. induction n as [|n IH]; intros w Hg; [exact Hg|]. rewrite run_ready_step.
 Lemma sx_arrivals : forall hs w, sx w (fold_left (fun acc h => call_soon h acc) hs w).
 Proof. induction hs as [|h hs IH]; intros w; cbn [fold_left]; [apply sx_refl|]. eapply sx_trans; [|apply IH]. apply sx_of; reflexivity. Qed.
 
-Lemma GG_iter_pre' arrivals rv w : all_notexp arrivals -> GG [] w -> GG [] (iter_pre arrivals rv w).
-Proof.
-  intros Ha Hg. split; [apply G_iter_pre; exact (proj1 Hg)|].
-  pose proof (GG_arrivals arrivals w Ha Hg) as [_ [H2 Hne]].
-  destruct (iter_pre_sub arrivals rv w) as (Hsub & Hc & Hf & Hi). cbv zeta in *.
-  split.
-  - intros tid st a k Hin Hnc. rewrite Hc in Hnc.
-    assert (Hst : get_store st (iter_pre arrivals rv w) = get_store st (fold_left (fun acc h => call_soon h acc) arrivals w)).
-    { destruct st as [|i]; unfold get_store; rewrite ?Hf, ?Hi; reflexivity. }
-    rewrite Hst. apply H2; [apply Hsub; exact Hin|exact Hnc].
-  - unfold ne_ready, iter_pre. cbv zeta. cbn [ready set_timers set_ready]. rewrite forallb_app. unfold ne_ready in Hne. rewrite Hne. cbn [andb].
-    apply forallb_forall. intros x Hx. apply in_map_iff in Hx. destruct Hx as (t & <- & _). reflexivity.
-Qed.
 
 Theorem GGS_iteration arrivals rv w : all_notexp arrivals -> GGS [] w -> GGS [] (iteration arrivals rv w).
 Proof.
-  intros Ha [Hg H6]. rewrite iteration_pre. apply GGS_run_ready. split; [apply GG_iter_pre'; assumption|].
+  intros Ha [Hg H6]. rewrite iteration_pre. apply GGS_run_ready. split; [apply GG_iter_pre; assumption|].
   eapply S6_sx; [|exact H6]. unfold iter_pre. cbv zeta. eapply sx_trans; [apply sx_arrivals|]. apply sx_of; reflexivity.
 Qed.
 
